@@ -25,7 +25,7 @@ func init() { Register("C09", runC09) }
 func runC09(r *mon.Run) {
 	n := bigN
 	for _, c := range []string{"c09:flip:entropy", "c09:flip:key", "c09:flip:digest", "c09:flip:digest-e-unchanged", "c09:reader:1-byte", "c09:reader:after-handouts-wiped", "c09:reader:fail:temporary-class-error", "c09:reader:chunks", "c09:reader:fail<32",
-		"c09:reader:fail>=32", "c09:reader:exactly-32-consumed", "c09:rfc6979:match", "c09:rfc6979:digest>=n", "c09:rfc6979:long-digest", "c09:stream:constant", "c09:stream:counter", "c09:stream:repeating"} {
+		"c09:reader:fail>=32", "c09:reader:exactly-32-consumed", "c09:rfc6979:match", "c09:rfc6979:digest>=n", "c09:rfc6979:long-digest", "c09:stream:constant", "c09:stream:counter", "c09:stream:repeating", "c09:reader:std-type:*os.File", "c09:reader:std-type:*bytes.Reader", "c09:reader:std-type:*bufio.Reader", "c09:reader:std-type:short-stream", "c09:sysrand:passed-explicitly"} {
 		r.Require(c)
 	}
 	if hk.HaveSecec {
@@ -278,6 +278,32 @@ func runC09(r *mon.Run) {
 		}
 		same(&fixedReader{data: append(append([]byte{}, entropy...), 1, 2, 3), chunk: 1 + rng.Intn(31)}, "random-chunk")
 		w.Class("c09:reader:chunks")
+		// the same 32 bytes through the reader types programs really pass (a signer that looks at
+		// the dynamic type of its reader, or at its optional interfaces, takes another path); where
+		// the type can tell, exactly 32 bytes are gone afterwards
+		if i%3 == 0 {
+			for _, sr := range stdReaders(entropy, rng.Bytes(40)) {
+				same(sr.rd, "standard-library reader type ("+sr.name+")")
+				if l := sr.left(); l >= 0 && sr.total-l != 32 {
+					w.Fail("c09/reader:std-type:consumed", fmt.Sprintf("SignRaw took %d bytes from a %s holding %d, expected exactly 32", sr.total-l, sr.name, sr.total), det...)
+				}
+				if sr.done != nil {
+					sr.done()
+				}
+				w.Class("c09:reader:std-type:" + sr.name)
+			}
+			// a short stream through the same types: error, no signature
+			for _, sr := range stdReaders(entropy[:rng.Intn(32)], nil) {
+				lr, ls, _, err := priv.SignRaw(sr.rd, dig)
+				if err == nil || lr != nil || ls != nil {
+					w.Fail("c09/reader:std-type:short", fmt.Sprintf("SignRaw produced a signature from a %s holding only %d bytes", sr.name, sr.total), det...)
+				}
+				if sr.done != nil {
+					sr.done()
+				}
+			}
+			w.Class("c09:reader:std-type:short-stream")
+		}
 		// failing after j bytes
 		for _, j := range []int{i % 33, rng.Intn(32), 31, 32, 33 + rng.Intn(8)} {
 			rd := &fixedReader{data: append(append([]byte{}, entropy...), rng.Bytes(16)...)[:j], chunk: 1 + rng.Intn(40), errAfter: errScripted}
@@ -582,6 +608,22 @@ func runC09(r *mon.Run) {
 		}
 		if !oracle.ECDSAVerify(oracle.MulG(d1), digA, a.r, a.s) {
 			w.Fail("c09/sysrand:verify", "SignRaw(nil) produced an invalid signature")
+		}
+		// the (degraded) system source passed EXPLICITLY: it is an io.Reader like any other - the
+		// signature is the one a private reader with the same bytes gives (a signer that recognises
+		// crypto/rand.Reader and then trusts it would differ)
+		{
+			rd := &repeatReader{pat: pat}
+			crand.Reader = rd
+			lr, ls, _, err := k1.SignRaw(crand.Reader, digA)
+			crand.Reader = saved
+			first := make([]byte, 32)
+			_, _ = (&repeatReader{pat: pat}).Read(first)
+			pr, ps, _, err2 := k1.SignRaw(&fixedReader{data: first}, digA)
+			w.Class("c09:sysrand:passed-explicitly")
+			if err != nil || err2 != nil || lr.Equal(pr) != 1 || ls.Equal(ps) != 1 {
+				w.Fail("c09/sysrand:explicit", fmt.Sprintf("SignRaw(crypto/rand.Reader, ...) with the system stream scripted differs from SignRaw with a private reader delivering the same 32 bytes (err=%v/%v): the signer treats the system reader specially", err, err2), "d", hb(d1), "digest", hx(digA), "system_stream_pattern", hx(pat))
+			}
 		}
 		// a failing system source: error, no signature
 		for _, after := range []int{0, 1, 31} {
